@@ -110,3 +110,12 @@ fn problem<const L: usize>() {
 pub fn c05_q_problem_string_len6() {
     problem::<6>();
 }
+
+#[cfg_attr(kani, kani::proof)]
+#[cfg_attr(kani, kani::stub(alloc::fmt::format, crate::util::fmt_stub))]
+#[cfg_attr(kani, kani::stub(std::backtrace::Backtrace::capture, crate::util::bt_stub))]
+#[cfg_attr(kani, kani::stub(<anyhow::Error as std::ops::Drop>::drop, crate::util::noop_err_drop))]
+#[cfg_attr(kani, kani::unwind(9))]
+pub fn c05_t_problem_string_len7() {
+    problem::<7>();
+}
